@@ -508,6 +508,10 @@ def run(ctx):
     if not complete:
         ctx.broken("build:incomplete", "the repository's make (which runs the fresh chibi-scheme on the .stub files) did not complete (%s); "
                                        "only the embedding workloads were run, against the core library that was built" % why)
+    if "CHIBI_VERIF_SWEEPLOG" not in open(os.path.join(d, "gc.c")).read():
+        ctx.broken("hook-missing", "gc.c of %s has no CHIBI_VERIF_SWEEPLOG hook: apply fixes/hook-C10-sweeplog.patch (guarded, add-only); "
+                                   "without it the traces carry no sweep logs and nothing can be replayed" % B.REPO)
+        return
     try:
         vals = c10_consts.regen(ctx, d)
         ctx.note("(G) constants from the headers: %s" % {k: vals[k] for k in ("unit_sz", "hdr_sz", "min_obj", "ratio", "factor")})
